@@ -169,6 +169,7 @@ def strided(seq, n):
 
 _MOD = None
 _PROGRESS = None  # file object in isolation mode
+_NO_ISOLATE = False  # set in the sacrificial process that re-runs a crashing shard with progress tracking
 
 
 def progress(case):
@@ -188,7 +189,7 @@ def _run_one(args):
     import numpy as np
 
     np.seterr(all="ignore")
-    if getattr(_MOD, "ISOLATE_SHARDS", True) and not os.environ.get("VERIF_COVERAGE"):
+    if getattr(_MOD, "ISOLATE_SHARDS", True) and not os.environ.get("VERIF_COVERAGE") and not _NO_ISOLATE:
         out = _run_one_isolated(idx, shard)
     else:
         try:
@@ -282,8 +283,9 @@ def _isolate(mod, idx, shard, timeout):
     parent, child = ctx.Pipe()
 
     def target():
-        global _PROGRESS
+        global _PROGRESS, _NO_ISOLATE
         _PROGRESS = open(path, "w")
+        _NO_ISOLATE = True
         child.send(_run_one((idx, shard)))
 
     p = ctx.Process(target=target)
@@ -308,7 +310,10 @@ def _isolate(mod, idx, shard, timeout):
         os.unlink(path)
         r = Result()
         if case is None:
-            raise HarnessError("shard %d: worker %s and the check records no progress() case" % (idx, how))
+            # no progress() record in this part of the check: the shard itself (a complete history from the
+            # import-time state) is the replayable artefact
+            r.viol({"crashed_shard": shard}, "worker process %s while running this shard" % how, kind="crash")
+            return r
         r.viol(case, "worker process %s while evaluating this case" % how, kind="crash")
         return r
     p.join()
@@ -376,6 +381,11 @@ def run_shards(mod, shards, nproc=NPROC):
                     w[0].join(1)
                     del workers[c]
                     spawn()
+                    continue
+                if tb and tb.startswith("isolated shard process died"):
+                    bad.append(w[1])  # the shard killed its process (e.g. a crashing C extension): name the case below
+                    done += 1
+                    w[1] = None
                     continue
                 if tb:
                     raise HarnessError("shard %d crashed:\n%s" % (idx, tb))
@@ -560,17 +570,22 @@ def main(argv=None):
     mod = importlib.import_module("vf.checks." + prop.lower())
     warnings.simplefilter("ignore")
 
+    global _MOD
     if a.replay:
         with open(a.replay) as f:
             body = json.load(f)
         if hasattr(mod, "setup"):
             mod.setup("replay", seed)
         try:
-            msgs = mod.replay(body["case"])
-            if not msgs and body.get("shard") is not None:
+            if isinstance(body["case"], dict) and "crashed_shard" in body["case"]:
+                _MOD = mod
+                r = mod.run_shard(body["case"]["crashed_shard"])  # dies again if the crash is still there
+                msgs = [v["msg"] for v in r.viols]
+            else:
+                msgs = mod.replay(body["case"])
+            if not msgs and "crashed_shard" not in (body["case"] if isinstance(body["case"], dict) else {}) and body.get("shard") is not None:
                 # the case alone passes: replay the whole shard (the call history that preceded the case in the
                 # original run; shards start from the import-time module state, exactly like this fresh process)
-                global _MOD
                 _MOD = mod
                 r = mod.run_shard(body["shard"])
                 key = case_key(body["case"])
